@@ -412,6 +412,29 @@ def clean_fields(fs):
     return out
 
 
+def big_ok(p, side):
+    """May ``side`` send a header list of some 40 kB?  Only while the receiver's MAX_HEADER_LIST_SIZE is, and stays,
+    at its 64 kB default."""
+    other = p.other(side)
+    return (p.max_data >= 70000 and p.announced[other].get(6, 65536) >= 65536 and
+            p.acked[other].get(6, 65536) >= 65536 and not p.outstanding[other])
+
+
+def with_field(hdrs, exp, field):
+    """Insert an ordinary field right behind the pseudo-header fields (in front of any cookie field, which the
+    receiver moves to the end) of the call's list and of the expectation."""
+    def is_pseudo(n):
+        n = n.strip() if hasattr(n, 'strip') else n
+        return (n[:1] == b':') if isinstance(n, bytes) else (n[:1] == ':')
+    i = 0
+    while i < len(hdrs) and is_pseudo(hdrs[i][0]):
+        i += 1
+    j = 0
+    while j < len(exp) and exp[j][0][:1] == b':':
+        j += 1
+    return hdrs[:i] + [field] + hdrs[i:], exp[:j] + [field] + exp[j:]
+
+
 def with_content_length(hdrs, exp, length):
     """Insert a content-length field behind the pseudo-header fields of the call's list and of the expectation."""
     def is_pseudo(n):
@@ -568,6 +591,10 @@ def gen_call(ch, p, side, allow_close, allow_bad):
             # a declared body length: the program then sends exactly that many payload bytes before END_STREAM
             declared = ch.pick([0, 1, 5, 100, 20000])
             hdrs, exp = with_content_length(hdrs, exp, declared)
+        if ch.chance(14) and big_ok(p, side):
+            # a block that needs CONTINUATION frames (with or without priority fields in front of it)
+            hdrs, exp = with_field(hdrs, exp, (b'x-big', b'B' * ch.pick([16300, 17000, 40000])))
+            p.stats['multi-frame-header-block'] += 1
 
         def ok(o, base):
             m.apply_send_headers(sid, what, es)
@@ -776,6 +803,9 @@ def gen_call(ch, p, side, allow_close, allow_bad):
         if verdict != M.PERMIT and what not in INERT_REFUSALS:
             p.r.excluded['state-machine-refusal-not-generated'] += 1
             return
+        if ch.chance(20) and big_ok(p, side):
+            hdrs, exp = with_field(hdrs, exp, (b'x-big', b'B' * ch.pick([16300, 17000, 40000])))
+            p.stats['multi-frame-header-block'] += 1
 
         def ok(o, base):
             m.apply_push(parent, promised)
